@@ -269,17 +269,26 @@ func (c *capWriter) Write(p []byte) (int, error) {
 }
 
 func runBin(bin string, args []string, stdinPath string) binRun {
-	ctx, cancel := context.WithTimeout(context.Background(), 120*time.Second)
-	defer cancel()
-	cmd := exec.CommandContext(ctx, bin, args...)
-	cmd.Env = append(os.Environ(), "MLRRC=__none__")
 	if stdinPath != "" {
 		f, err := os.Open(stdinPath)
 		if err != nil {
 			return binRun{err: err.Error(), exit: -1}
 		}
 		defer f.Close()
-		cmd.Stdin = f
+		return runBinReader(bin, args, f) // an *os.File is inherited as is: a redirect
+	}
+	return runBinReader(bin, args, nil)
+}
+
+// runBinReader: stdin nil = /dev/null; an *os.File is handed to the child as its
+// descriptor 0 (redirect); any other reader is fed through a pipe by os/exec.
+func runBinReader(bin string, args []string, stdin io.Reader) binRun {
+	ctx, cancel := context.WithTimeout(context.Background(), 120*time.Second)
+	defer cancel()
+	cmd := exec.CommandContext(ctx, bin, args...)
+	cmd.Env = append(os.Environ(), "MLRRC=__none__")
+	if stdin != nil {
+		cmd.Stdin = stdin
 	}
 	out := &capWriter{cap: 64 << 20}
 	errw := &capWriter{cap: 1 << 16}
